@@ -78,7 +78,7 @@ const (
 	baseOverrun    = 15 * time.Second // 5 x the server's request deadline (3 s) on an idle machine
 	memGrowthLimit = 768 << 20        // heap growth during one case
 	memHardLimit   = 3 << 30
-	childRestart   = 500 // cases per child (the memory datastore never frees models)
+	childRestart   = 1500 // cases per child (the memory datastore never frees models)
 )
 
 // The machine is shared: wall-clock limits are scaled by the oversubscription factor
@@ -805,7 +805,7 @@ func main() {
 			for v := nFaultVariants(); v < nFaultVariants()+nFaultProbes; v++ {
 				rn.run(caseDesc{G: g.name, S: r.Uint64(), V: v})
 			}
-			step = 97
+			step = 193
 			if o.Tier == "thorough" {
 				step = 7
 			}
